@@ -5,7 +5,23 @@ import json, os, subprocess, sys
 HERE = os.path.dirname(os.path.dirname(os.path.abspath(__file__)))
 
 # id -> (engine, level, technique, level_text, level_note, design_ref)
+HIST_NOTE = "trusts the monitor (harness/src/hist/monitor.rs) as the reading of the statement, poll(2) and /proc fdinfo as kernel ground truth, and the hook commit's read-only statistics; sources are tainted (not judged) after documented misuse; never shows absence"
+def hist(text, tech="model-based (stateful) property-based testing: generated operation histories incl. in-callback programs, trace-checking reference monitor, proptest shrinking"):
+    return ("hist", "exploration", tech, text, HIST_NOTE, "DESIGN.md sections 3.1-3.3 and 4")
+
 CHECKS = {
+    "C01": hist("Every callback of every generated history is judged: live registration, own unconsumed cause (ping count, channel FIFO head, live timer arming, poll(2)-confirmed fd readiness under the interest registered), own registration key. Search over histories is the natural level for a statement quantified over histories; absence is not shown."),
+    "C02": hist("Obligation snapshot at dispatch start (pings, queued messages / closed channels, expired timers, poll(2) readiness per interest and trigger mode) must be served by an Ok dispatch unless waived by an in-dispatch mutation; one-shot upper bound and edge lower bound over the history."),
+    "C05": hist("Per-arming model of every timer: never early, event == current deadline, deadline order within a dispatch, window rule for 'first dispatch at or after the deadline', cancelled armings never fire, heap length == live armings after every step (statistics hook). Real monotonic clock; only order-insensitive window arguments are used."),
+    "C06": hist("All removal paths, slot reuse, every stale token exercised; register/unregister call counts of instrumented sources show that dead tokens touch nothing; drop counters of sources, callbacks and idles are exactly one at the end; Dispatcher::into_source_inner must succeed after removal; loop/handle drop order both ways."),
+    "C07": hist("No callback between disable and the next successful enable (also for events already in the batch), token stays valid, causes pending at enable are obligated afterwards, no registration call on any other source."),
+    "C08": hist("Every LoopHandle operation issued from generated callback / idle programs (nested to depth 3) against the running source, batch neighbours, stale tokens and fresh inserts: no panic (caught at the dispatch boundary, attributed by location) and the same model effect as outside a dispatch."),
+    "C09": hist("Instrumented sources count register/reregister/unregister calls; after each process_events return the effective post-action (explicit over deferred) must show exactly its calls on exactly that source and none on any other, including after Err returns and slot reuse inside the callback; the deferred cell is observed empty between events (statistics hook)."),
+    "C13": hist("Idle callbacks: exactly once, after all source callbacks of the first Ok dispatch, insertion order, idle-of-idle deferred to the next dispatch, cancelled never, failed dispatch runs none, closures dropped exactly once."),
+    "C14": hist("Lifecycle probes with several ping sub-sources and optional synthetic events: one before_sleep then one before_handle_events per live lifecycle source before any event processing, synthetic event delivered in the same dispatch and never shown to the iterator, iterator covers exactly own real events, lifecycle list == enabled lifecycle sources after every step incl. failed registrations."),
+    "C15": ("hist", "fault_enumeration", "fault injection over generated histories (failing register at sub-step k / reregister / unregister / process_events / before_sleep, scripted Err returns) with a trace-checking reference monitor", "Faults are injected at generated registration steps and event-processing calls of generated histories which then continue; the failing call must return its error, hand the source back, leave slots / lifecycle list / kernel table as before, never make a later dispatch panic, and every cause pending before an Err must still be served afterwards. Positions are sampled (proptest), not enumerated exhaustively per history.", HIST_NOTE, "DESIGN.md section 4 C15"),
+    "C16": hist("After every step the kernel's epoll table (/proc/self/fdinfo) minus polling's own entries must equal the model's set of enabled fd registrations: keys for all, interest/mode bits and fd for Generic sources; released fds are re-inserted.", "model-based property-based testing with a kernel oracle (/proc/self/fdinfo epoll table) after every generated step"),
+    "C19": ("signals", "exploration", "model-based property-based testing of signal-mask histories in a single-threaded process (proptest, reference model of mask / pending sets / handler counts)", "Histories of new/add/remove/set/raise/insert/dispatch/drop; after every op the real thread mask, sigpending() and counting handlers are compared with the model; dispatch results compared with pending configured instances incl. siginfo fields.", "single-threaded check process; Linux standard-signal semantics as stated in the module header", "DESIGN.md section 4 C19"),
     "C20": ("pure", "exploration",
             "property-based testing (proptest) over (id,generation,sub) triples + bounded-exhaustive boundary planes + kernel epoll-table cross-check",
             "Random triples/pairs/raw keys (round trip, injectivity, field isolation, reserved key, bump/same_source laws), every generation x sub-id of 7 boundary slot indices (thorough: all 2^32 pairs per id; quick: sub-ids at stride 61), token factories up to and beyond 65536 requests, real loops with up to 131073 reuses of one slot compared with /proc fdinfo. Arithmetic over a finite domain: search plus enumeration is the natural level.",
@@ -60,6 +76,8 @@ def main():
         },
         "engines": [
             {"name": "pure", "path": "harness/src/props", "serves_properties": ["C20"], "kind_free_text": "proptest strategies over inputs + bounded-exhaustive enumeration, run from the check binary with a fixed seed"},
+            {"name": "hist", "path": "harness/src/hist", "serves_properties": [i for i in ids if i in CHECKS and CHECKS[i][0] == "hist"], "kind_free_text": "single-thread history machine: interpreter over a real EventLoop with instrumented sources (world.rs) + trace-checking reference monitor (monitor.rs), proptest generation and shrinking, JSON replays"},
+            {"name": "signals", "path": "harness/src/props/c19.rs", "serves_properties": ["C19"], "kind_free_text": "single-threaded signal-history machine with a mask/pending/handler model"},
         ],
         "checks": checks,
         "notes": "All checks: exit 0 held / exit 1 + VIOLATION line / exit 2 infrastructure problem (never a violation). Known findings: /verif/known_findings.json. VERIF_SEED selects the proptest seed (default 1).",
